@@ -277,3 +277,32 @@ func FuzzC05Statement(f *testing.F) {
 		}
 	})
 }
+
+// TestC05Large: large flat programs compile to one well-formed statement
+// (two- and three-digit subquery numbers, long lists).
+func TestC05Large(t *testing.T) {
+	st := harn.NewStats(env, "large")
+	defer st.Flush()
+	rapid.Check(t, func(rt *rapid.T) {
+		g := gen.NewG(rt, gen.Cfg{MaxDepth: 1, MaxOps: 2, JoinDepth: 0, Compilable: true})
+		prog, class, n := genLargeProgram(rt, g)
+		src := gen.Source(prog)
+		st.Eval()
+		st.Class(class)
+		msg, compiled, skip, sql := checkStatement(src, nil)
+		if skip != "" {
+			st.Class("excluded:" + skip)
+			return
+		}
+		if !compiled {
+			if _, err := pql.Compile(src); err != nil {
+				st.Violation(rt, "C05", "statement", stmtCase{strCase: mkStrCase(src)}, "%s program of size %d does not compile: %v", class, n, err)
+			}
+			return
+		}
+		st.NonTrivial(fmt.Sprint(class, n))
+		if msg != "" {
+			st.Violation(rt, "C05", "statement", stmtCase{strCase: mkStrCase(src)}, "%s program of size %d: the emitted SQL %s\nsql: %s", class, n, msg, trunc(sql, 400))
+		}
+	})
+}
